@@ -322,7 +322,9 @@ class TidesBase(WorldConfigHolder):
                     )
 
         # Determine if new tidal frequencies need to be calculated
-        if spin_freq_changed or orbital_freq_changed:
+        #    The tidal terms also depend on the eccentricity and obliquity results, so they must be recalculated
+        #    whenever those results were refreshed above (flagged by `_need_to_collapse_modes`).
+        if spin_freq_changed or orbital_freq_changed or self._need_to_collapse_modes:
             if eccentricity_results is not None and obliquity_results is not None and \
                     spin_frequency is not None and orbital_frequency is not None:
                 # Update the tidal frequencies and terms using the new orbital frequency
